@@ -204,14 +204,19 @@ func (ip *Interp) GuardList(st *State) []GuardInfo {
 			continue
 		}
 		if ev, ok := act.env[k].(*Bool); ok && ev.K == TriTop {
-			o := b.K == TriT
-			if ev.Neg {
-				o = !o
-			}
-			out = append(out, GuardInfo{Key: ValKey(ev), Outcome: o, Cmp: ev.Cmp})
+			key, neg := GateOf(ev)
+			out = append(out, GuardInfo{Key: key, Outcome: (b.K == TriT) != neg, Cmp: ev.Cmp})
 		}
 	}
 	return out
+}
+
+// GateOf names the un-negated condition behind an undecided boolean: the key of its
+// comparison (or entry symbol) and whether the boolean is the negation of it.
+func GateOf(b *Bool) (string, bool) {
+	u := *b
+	u.Neg = false
+	return ValKey(&u), b.Neg
 }
 
 // GuardListOf returns the guards recorded with an event.
@@ -231,7 +236,8 @@ func (ip *Interp) Guards(st *State) map[string]bool {
 			continue
 		}
 		if ev, ok := act.env[k].(*Bool); ok && ev.K == TriTop {
-			g[ValKey(ev)] = b.K == TriT
+			key, neg := GateOf(ev)
+			g[key] = (b.K == TriT) != neg
 		}
 	}
 	return g
@@ -795,7 +801,9 @@ func (ip *Interp) edgeChain(act *activation, ins map[*ssa.BasicBlock][]edgeIn, l
 					if cb.Cmp == nil && cb.Key == "" {
 						return nil, false
 					}
-					rev = append(rev, chainStep{ValKey(cb), child == cur.Succs[0]})
+					key, neg := GateOf(cb)
+					ip.In.NoteCond(key, cb)
+					rev = append(rev, chainStep{key, (child == cur.Succs[0]) != neg})
 				}
 			}
 		}
